@@ -16,7 +16,7 @@ THEOREMS = ["PyOak.Legacy.C18." + t for t in [
     "inv_init", "inv_step_new", "inv_step_attach", "inv_step_detach", "inv_step_dup",
     "inv_step_replace", "inv_step_replace_partial", "inv_step_rwith_partial", "inv_step_rwith_parent_partial",
     "inv_step_partial", "inv_run_partial",
-    "inv_run_init_partial", "parent_is_holder", "holder_is_parent", "ancestors_chain", "cid_eq_spec",
+    "inv_run_init_partial", "inv_step_rwith", "inv_step", "inv_run", "inv_run_init", "parent_is_holder", "holder_is_parent", "ancestors_chain", "cid_eq_spec",
 ]] + ["PyOak.Legacy." + t for t in [
     "detachGo_facts", "inv_of_detachFacts", "detachGo_invX", "detachGo_inv", "commitOne_inv", "attachPlan_facts",
     "commit_prefix", "attach_invX", "attach_inv", "construct_invX", "construct_inv", "duplicate_ok",
@@ -24,18 +24,16 @@ THEOREMS = ["PyOak.Legacy.C18." + t for t in [
     "swapped_cid_parent", "replaceChild_some_inv", "replace_inv_parent", "detachGo_desc", "upFree_of_desc",
     "not_desc_of_upFree", "posFrom_mem_iff", "shiftDown_mem", "replaceChild_none",
     "replaceWith_inv_parent_some",
+    "detachGo_keeps", "detach_no_cycle", "rwith_open", "kidsPos_removed", "removed_invX", "replaceChild_none_inv",
+    "replaceWith_inv_parent_none", "attach_roots", "commitOne_takeOver", "takeOver_attach_invX",
+    "takeOver_parent_fails", "replaceWith_inv_root", "replaceWith_inv_parent_any", "replaceWith_inv",
 ]]
 PARTIAL = [
-    "inv_step_rwith_partial / inv_step_rwith_parent_partial: replace_with() is proved (a) for receivers without a "
-    "parent and new = None or a detached node, (b) for receivers WITH a parent and new = a detached node under the "
-    "hypothesis that the parent is not a descendant of the receiver (no cycle through the receiver; in LOp.proved it is "
-    "the computable check `upFree`: walking up from the parent reaches a root without meeting the receiver); missing: "
-    "receiver with a parent and new = None -- Props/LegacyRemove.lean has the pieces (positions of a sequence field, "
-    "shiftDown, replaceChild_none) and the stated, not yet proved `removed_invX`; new = an ATTACHED root (its "
-    "children's parent ids dangle while the ids are swapped); and dropping the acyclicity hypothesis",
-    "inv_run_partial / inv_run_init_partial: induction over histories whose steps lie in the proved fragment: ALL of "
-    "construct / attach / detach / detach_self / duplicate / replace (any receiver), and replace_with as above; side "
-    "condition of construct / replace: distinct child-field names, single fields hold at most one node",
+    "inv_step / inv_run / inv_run_init: ALL operations of the model (construct / attach / detach / detach_self / "
+    "duplicate / replace / replace_with with any receiver and any argument: None, detached node, attached root) "
+    "preserve the invariant whenever the call returned; no acyclicity hypothesis (on a heap with a cycle through the "
+    "receiver the detach() inside replace_with does not return); side condition of construct / replace only: distinct "
+    "child-field names, single fields hold at most one node",
     "transform visitor and ASTTransformer.execute are not modelled in Lean (compositions of the above driven by user "
     "callbacks): covered by the invariant oracle on the real objects only",
     "ancestors_chain covers ancestors(); get_depth / is_ancestor / calculated xpath are the same walk along `parent` and "
